@@ -422,6 +422,7 @@ def Expr.lineFreeE : Expr → Prop
   | .sel e _ _ _ b a => e.lineFreeE ∧ lineFree b ∧ lineFree a
   | .selOr e _ _ _ d _ _ b a => e.lineFreeE ∧ d.lineFreeE ∧ lineFree b ∧ lineFree a
   | .lam _ _ _ _ body b a => body.lineFreeE ∧ lineFree b ∧ lineFree a
+  | .un _ e _ _ b a => e.lineFreeE ∧ lineFree b ∧ lineFree a
 def allLineFree : List Expr → Prop
   | [] => True
   | e :: rest => e.lineFreeE ∧ allLineFree rest
@@ -484,6 +485,7 @@ theorem lineFreeE_after {e : Expr} (h : e.lineFreeE) : lineFree e.after := by
   | sel e ats g ab b a => exact h.2.2
   | selOr e ats g ab d dg db b a => exact h.2.2.2
   | lam n c g k bd b a => exact h.2.2
+  | un o e g bt b a => exact h.2.2
 
 mutual
 theorem lexOut_noLine : (e : Expr) → e.ok → e.lineFreeE → ∀ na, noLineL (e.lexOut na)
@@ -570,6 +572,10 @@ theorem lexOut_noLine : (e : Expr) → e.ok → e.lineFreeE → ∀ na, noLineL 
     refine noLineL_append.mpr ⟨noLineL_append.mpr ⟨noLineL_append.mpr ⟨noLineL_cm hok.2.2.2.1 hf.2.1, ?_⟩,
       lexOut_noLine body hok.2.2.1 hf.1 false⟩, noLineL_ite _ noLineL_nil (noLineL_cm hok.2.2.2.2 hf.2.2)⟩
     intro s hs; simp at hs
+  | .un op e g bt b a, hok, hf, na => by
+    simp only [Expr.lexOut]
+    exact noLineL_append.mpr ⟨noLineL_append.mpr ⟨noLineL_append.mpr ⟨noLineL_cm hok.2.2.2.1 hf.2.1, noLineL_tok _⟩,
+      lexOut_noLine e hok.2.1 hf.1 false⟩, noLineL_ite _ noLineL_nil (noLineL_cm hok.2.2.2.2 hf.2.2)⟩
 theorem lexOutAll_noLine : (es : List Expr) → allOk es → allLineFree es → noLineL (lexOutAll es)
   | [], _, _ => noLineL_nil
   | e :: rest, hok, hf => by
@@ -633,6 +639,7 @@ def Expr.mlSafe : Expr → Prop
     e.mlSafe ∧ d.mlSafe ∧ e.notBinding = true ∧ d.notBinding = true ∧ e.after = [] ∧ d.after = []
   -- the body of a lambda carries no trailing trivia of its own
   | .lam _ _ _ _ body _ _ => body.mlSafe ∧ body.notBinding = true ∧ body.after = []
+  | .un _ e _ _ _ _ => e.mlSafe ∧ e.notBinding = true ∧ e.after = []
 def allMlSafe : List Expr → Prop
   | [] => True
   | e :: rest => e.mlSafe ∧ allMlSafe rest
@@ -815,6 +822,7 @@ theorem rebuildAP_after_nil {e : Expr} (h : e.after = []) (i : Nat) (b : Bool) :
   | sel e ats g ab bf af => simp only [Expr.after] at h; subst h; simp [Expr.rebuildAP]
   | selOr e ats g ab d dg db bf af => simp only [Expr.after] at h; subst h; simp [Expr.rebuildAP]
   | lam n c g k bd bf af => simp only [Expr.after] at h; subst h; simp [Expr.rebuildAP]
+  | un o e g bt bf af => simp only [Expr.after] at h; subst h; simp [Expr.rebuildAP]
 
 /-- the argument of a call / the body of a `with` is rendered last and carries no trailing trivia -/
 def Expr.tailOk : Expr → Prop
@@ -823,6 +831,7 @@ def Expr.tailOk : Expr → Prop
   | .asrt _ x _ _ _ _ => x.after = [] ∧ x.notBinding = true ∧ x.tailOk
   | .selOr _ _ _ _ x _ _ _ _ => x.after = [] ∧ x.notBinding = true ∧ x.tailOk
   | .lam _ _ _ _ x _ _ => x.after = [] ∧ x.notBinding = true ∧ x.tailOk
+  | .un _ x _ _ _ _ => x.after = [] ∧ x.notBinding = true ∧ x.tailOk
   | _ => True
 
 theorem mlSafe_tailOk : (e : Expr) → e.mlSafe → e.tailOk
@@ -837,6 +846,7 @@ theorem mlSafe_tailOk : (e : Expr) → e.mlSafe → e.tailOk
   | .sel .., _ => trivial
   | .selOr _ _ _ _ x _ _ _ _, h => ⟨h.2.2.2.2.2, h.2.2.2.1, mlSafe_tailOk x h.2.1⟩
   | .lam _ _ _ _ x _ _, h => ⟨h.2.2, h.2.1, mlSafe_tailOk x h.1⟩
+  | .un _ x _ _ _ _, h => ⟨h.2.2, h.2.1, mlSafe_tailOk x h.1⟩
 
 theorem attrP_endsTok : ∀ (attrs : List Text), attrs ≠ [] → (∀ x ∈ attrs, solidT x) →
     ∃ t, EndsTok (attrP attrs) t ∧ solidT t
@@ -942,6 +952,22 @@ theorem noAfter_ends_tok : (e : Expr) → e.ok → e.tailOk → e.notBinding = t
     simp only [Expr.rebuildAP, addTriviaP, if_true, trailP_nil]
     exact endsTok_append_nil (endsTok_append _ (endsTok_append _ ht))
 
+  | .un op e g bt bf af, hok, hml, _, i, b => by
+    obtain ⟨hxa, hxnb, hxm⟩ := hml
+    have key : ∀ (j : Nat) (bb : Bool), ∃ t, EndsTok (e.rebuildAP false j bb) t ∧ solidT t := by
+      intro j bb
+      obtain ⟨t, ht, hst⟩ := noAfter_ends_tok e hok.2.1 hxm hxnb j bb
+      rw [← rebuildAP_after_nil hxa] at ht
+      exact ⟨t, ht, hst⟩
+    have hE : ∃ t, EndsTok (if (unLayout bt g).onNewline = true then e.rebuildAP false ((unLayout bt g).indent.getD i) false
+        else e.rebuildAP false i true) t ∧ solidT t := by
+      split
+      · exact key _ _
+      · exact key _ _
+    obtain ⟨t, ht, hst⟩ := hE
+    simp only [Expr.rebuildAP, addTriviaP, if_true, trailP_nil]
+    exact ⟨t, endsTok_append_nil (endsTok_append _ (endsTok_append _ ht)), hst⟩
+
 /-- the trailing trivia are rendered last -/
 theorem rebuildAP_split {e : Expr} (hna : e.isAsrtE = false) (hnb : e.notBinding = true) (i : Nat) (b : Bool) :
     e.rebuildAP false i b = e.rebuildAP true i b ++ trailP e.after i := by
@@ -966,6 +992,7 @@ theorem rebuildAP_split {e : Expr} (hna : e.isAsrtE = false) (hnb : e.notBinding
   | sel e ats g ab bf af => simp [Expr.rebuildAP, addTriviaP, trailP_nil, Expr.after]
   | selOr e ats g ab d dg db bf af => simp [Expr.rebuildAP, addTriviaP, trailP_nil, Expr.after]
   | lam n c g k bd bf af => simp [Expr.rebuildAP, addTriviaP, trailP_nil, Expr.after]
+  | un o e g bt bf af => simp [Expr.rebuildAP, addTriviaP, trailP_nil, Expr.after]
   | asrt c bd x y bf af => cases hna
 
 /-- an expression without trailing trivia ends closed -/
@@ -1005,6 +1032,7 @@ theorem rebuildAP_open {e : Expr} (hok : e.ok) (hml : e.mlSafe) (hnb : e.notBind
     | sel => cases hA
     | selOr => cases hA
     | lam => cases hA
+    | un => cases hA
 
 /-- the comments after the function: safe after a closed state; open afterwards only if the last one
     is a line comment -/
@@ -1382,6 +1410,29 @@ theorem rebuildAP_safe : (e : Expr) → e.ok → e.mlSafe → ∀ (na : Bool) (i
     rw [safeGo_append, rebuildAP_safe body hbd hbm false i (k == 0), closed_of_after_nil hbd hbm hbnb hba i (k == 0),
       Bool.true_and]
     exact ht
+  | .un op expr g bt before after, hok, hml, na, i, b => by
+    obtain ⟨_, he, _, hb, ha⟩ := hok
+    obtain ⟨hem, henb, hea⟩ := hml
+    have ht := (trailP_safe (ite_nil_ok na ha) i).1
+    have hexpr : safeGo false (if (unLayout bt g).onNewline = true then expr.rebuildAP false ((unLayout bt g).indent.getD i) false
+          else expr.rebuildAP false i true) = true ∧
+        openAfter false (if (unLayout bt g).onNewline = true then expr.rebuildAP false ((unLayout bt g).indent.getD i) false
+          else expr.rebuildAP false i true) = false := by
+      split
+      · exact ⟨rebuildAP_safe expr he hem false _ _, closed_of_after_nil he hem henb hea _ _⟩
+      · exact ⟨rebuildAP_safe expr he hem false _ _, closed_of_after_nil he hem henb hea _ _⟩
+    simp only [Expr.rebuildAP, addTriviaP, List.append_assoc]
+    rw [(lines_then i hb _).1, (indentP_scan i b _).1]
+    have hbase : ∀ (rest : List FP), safeGo false ((if (op == ['+', '+'] && !b) = true
+        then [FP.ws (['\n'] ++ spaces i), FP.tok op] else [FP.tok op]) ++ rest) = safeGo false rest := by
+      intro rest
+      split
+      · simp only [List.cons_append, List.nil_append, (tok_then _ _).1, (ws_then _ _).1]
+      · simp only [List.cons_append, List.nil_append, (tok_then _ _).1]
+    rw [hbase]
+    simp only [List.cons_append, List.nil_append, (ws_then _ _).1]
+    rw [safeGo_append, hexpr.1, hexpr.2, Bool.true_and]
+    exact ht
 theorem rebuildAllP_safe : (es : List Expr) → allOk es → allMlSafe es → ∀ (i : Nat) (b : Bool),
     ∀ x ∈ rebuildAllP es i b, safeGo false x = true
   | [], _, _, _, _, x, hx => by cases hx
@@ -1402,6 +1453,7 @@ theorem previewP_safe : (e : Expr) → e.ok → e.mlSafe → ∀ (i : Nat) (p : 
   | .sel .., _, _, i, p, h => by simp [Expr.previewP] at h
   | .selOr .., _, _, i, p, h => by simp [Expr.previewP] at h
   | .lam .., _, _, i, p, h => by simp [Expr.previewP] at h
+  | .un .., _, _, i, p, h => by simp [Expr.previewP] at h
   | .list value ml inner before after, hok, hml, i, p, h => by
     obtain ⟨hv, hin, hb, ha⟩ := hok
     refine ⟨[']'], ?_, solidT_lit ']' (by decide), ?_⟩
@@ -1544,6 +1596,7 @@ def Cst.noLineC : Cst → Bool
   | .sel e c1 _ _ _ => e.noLineC && gcNoLine c1
   | .selOr e c1 _ _ _ c2 _ _ d => e.noLineC && gcNoLine c1 && gcNoLine c2 && d.noLineC
   | .lam _ c1 _ c2 _ b => gcNoLine c1 && gcNoLine c2 && b.noLineC
+  | .un _ c _ e => gcNoLine c && e.noLineC
 def Items.noLineI : Items → Bool
   | .nil => true
   | .cmt _ t rest => !isLineCmt t && rest.noLineI
@@ -1667,6 +1720,14 @@ theorem cst_noLine_of_noNL : (c : Cst) → c.wf = true → containsNL c.flatten 
       simpa [Cst.flatten, flattenGC, List.append_assoc] using hn
     simp only [Cst.noLineC, gcNoLine, List.all_nil, Bool.true_and]
     exact cst_noLine_of_noNL b hbw (containsNL_append_false h1).2
+  | .un op c g e, hwf, hn => by
+    simp only [Cst.wf, Bool.and_eq_true, List.isEmpty_iff] at hwf
+    obtain ⟨⟨⟨_, hc⟩, _⟩, hew⟩ := hwf
+    subst hc
+    have h1 : containsNL ((op ++ g) ++ e.flatten) = false := by
+      simpa [Cst.flatten, flattenGC, List.append_assoc] using hn
+    simp only [Cst.noLineC, gcNoLine, List.all_nil, Bool.true_and]
+    exact cst_noLine_of_noNL e hew (containsNL_append_false h1).2
 theorem items_noLine_of_noNL : (its : Items) → ∀ (m : Mode) (cg : Text), its.wf m cg = true → m ≠ .file →
     containsNL (its.flatten ++ cg) = false → its.noLineI = true
   | .nil, _, _, _, _, _ => rfl
@@ -1761,6 +1822,7 @@ theorem lineFreeE_setBefore {e : Expr} (h : e.lineFreeE) {b : List Trivia} (hb :
   | sel e ats g ab b' a => exact ⟨h.1, hb, h.2.2⟩
   | selOr e ats g ab d dg db b' a => exact ⟨h.1, h.2.1, hb, h.2.2.2⟩
   | lam n c g k bd b' a => exact ⟨h.1, hb, h.2.2⟩
+  | un o e g bt b' a => exact ⟨h.1, hb, h.2.2⟩
 
 theorem lineFreeE_addAfter {e : Expr} (h : e.lineFreeE) {a : List Trivia} (ha : lineFree a) : (e.addAfter a).lineFreeE := by
   have haa := lineFree_append.mpr ⟨lineFreeE_after h, ha⟩
@@ -1776,6 +1838,7 @@ theorem lineFreeE_addAfter {e : Expr} (h : e.lineFreeE) {a : List Trivia} (ha : 
   | sel e ats g ab b a' => exact ⟨h.1, h.2.1, haa⟩
   | selOr e ats g ab d dg db b a' => exact ⟨h.1, h.2.1, h.2.2.1, haa⟩
   | lam n c g k bd b a' => exact ⟨h.1, h.2.1, haa⟩
+  | un o e g bt b a' => exact ⟨h.1, h.2.1, haa⟩
 
 theorem mlSafe_setBefore {e : Expr} (h : e.mlSafe) (b : List Trivia) : (e.setBefore b).mlSafe := by
   cases e <;> exact h
@@ -1860,6 +1923,7 @@ theorem lineFreeE_before {e : Expr} (h : e.lineFreeE) : lineFree e.before := by
   | sel e ats g ab b a => exact h.2.1
   | selOr e ats g ab d dg db b a => exact h.2.2.1
   | lam n c g k bd b a => exact h.2.1
+  | un o e g bt b a => exact h.2.1
 
 theorem binding_inv {n : Text} {c1 c2 c3 : GC} {g1 g2 g3 : Text} {ve b : Expr} {before : List Trivia}
     (h1 : gcOk c1 g1 = true) (h2 : gcOk c2 g2 = true) (h3 : gcOk c3 g3 = true)
@@ -2305,6 +2369,17 @@ theorem cst_parse_inv : (c : Cst) → c.wf = true → ∀ (e : Expr), c.parse = 
     refine ⟨⟨hb'.1, hb'.2.1, hb'.2.2.1⟩, rfl, fun hnl => ?_⟩
     simp only [Cst.noLineC, Bool.and_eq_true] at hnl
     exact ⟨hb'.2.2.2 hnl.2, lineFree_nil, lineFree_nil⟩
+  | .un op c g e, hwf, ex, hp => by
+    simp only [Cst.wf, Bool.and_eq_true, List.isEmpty_iff] at hwf
+    obtain ⟨⟨⟨_, hc⟩, _⟩, hew⟩ := hwf
+    subst hc
+    obtain ⟨ee, hpe, _, _, hea, _⟩ := cst_parse_spec false e hew (fun h => by cases h)
+    have hie := cst_parse_inv e hew ee hpe
+    simp only [Cst.parse, hpe] at hp
+    injection hp with hp; subst hp
+    refine ⟨⟨hie.1, hie.2.1, hea⟩, rfl, fun hnl => ?_⟩
+    simp only [Cst.noLineC, Bool.and_eq_true] at hnl
+    exact ⟨hie.2.2 hnl.2, lineFree_nil, lineFree_nil⟩
 theorem items_parse_inv : (its : Items) → ∀ (m : Mode) (cg : Text) (st st' : SeqSt), its.wf m cg = true →
     its.parseSeq m st = .ok st' → allMlSafe st.items →
     allMlSafe st'.items ∧ (its.noLineI = true → allLineFree st.items → lineFree st.before →
